@@ -10,18 +10,23 @@ package policy
 //@ # ---- C05: threshold counting in SignatureVerifier.Verify ----
 //@ define setHas(s *set.Set[string], k string) bool = s != nil && has(s.contents, k)
 //@ define setLen(s *set.Set[string]) int = len(s.contents)
-//@ define trustedID(v *SignatureVerifier, s string) bool = exists i :: 0 <= i && i < len(v.principals) && pID(v.principals[i]) == s
+//@ define trustedIn(ps []tuf.Principal, s string) bool = exists i :: 0 <= i && i < len(ps) && pID(ps[i]) == s
+//@ define trustedID(v *SignatureVerifier, s string) bool = trustedIn(v.principals, s)
 //@ # keyOK: the key validates the Git object's own signature or a signature of the envelope
 //@ define keyOK(gitID Hash, env *sslibdsse.Envelope, k string) bool = gitValid(k, objPayload(gitID), objSig(gitID)) || envValid(env, k)
 //@ # creditedKey: the key belongs to a principal of the rule that is in the credited set
-//@ define creditedKey(v *SignatureVerifier, ps *set.Set[string], k string) bool = exists i :: 0 <= i && i < len(v.principals) && pHasKey(v.principals[i], k) && setHas(ps, pID(v.principals[i]))
+//@ define creditedKeyIn(pr []tuf.Principal, ps *set.Set[string], k string) bool = exists i :: 0 <= i && i < len(pr) && pHasKey(pr[i], k) && setHas(ps, pID(pr[i]))
+//@ define creditedKey(v *SignatureVerifier, ps *set.Set[string], k string) bool = creditedKeyIn(v.principals, ps, k)
 //@ # credit: every credited principal is trusted by the rule, every used key is valid and belongs to a credited
 //@ # principal, and there are at least as many distinct used keys as credited principals (cardinality form of
 //@ # "each principal with a different key")
-//@ define credit(v *SignatureVerifier, gitID Hash, env *sslibdsse.Envelope, ps *set.Set[string], ks *set.Set[string]) bool = ps != nil && ks != nil && ps.contents != nil && ks.contents != nil
-//@ ..  && (forall s string :: setHas(ps, s) ==> trustedID(v, s))
-//@ ..  && (forall k string :: setHas(ks, k) ==> keyOK(gitID, env, k) && creditedKey(v, ps, k))
+//@ define creditIn(pr []tuf.Principal, gitID Hash, env *sslibdsse.Envelope, ps *set.Set[string], ks *set.Set[string]) bool = ps != nil && ks != nil && ps.contents != nil && ks.contents != nil
+//@ ..  && (forall s string :: setHas(ps, s) ==> trustedIn(pr, s))
+//@ ..  && (forall k string :: setHas(ks, k) ==> keyOK(gitID, env, k) && creditedKeyIn(pr, ps, k))
 //@ ..  && setLen(ps) <= setLen(ks)
+//@ define credit(v *SignatureVerifier, gitID Hash, env *sslibdsse.Envelope, ps *set.Set[string], ks *set.Set[string]) bool = creditIn(v.principals, gitID, env, ps, ks)
+//@ # metBy: some set of at least thr principals out of pr is credited for valid signatures with distinct keys
+//@ define metBy(pr []tuf.Principal, thr int, gitID Hash, env *sslibdsse.Envelope) bool = thr >= 1 && (exists ps *set.Set[string], ks *set.Set[string] :: creditIn(pr, gitID, env, ps, ks) && setLen(ps) >= thr)
 //@ define setsFresh(ps *set.Set[string], ks *set.Set[string]) bool = fresh(ps) && fresh(ks) && fresh(ps.contents) && fresh(ks.contents) && ps != ks && ps.contents != ks.contents
 //@ define noNilPrincipals(v *SignatureVerifier) bool = forall i :: 0 <= i && i < len(v.principals) ==> notNil(v.principals[i])
 
@@ -31,6 +36,7 @@ package policy
 //@   ensures invalidVerifier: v.threshold < 1 || len(v.principals) < 1 ==> err == ErrInvalidVerifier && r == nil
 //@   ensures thresholdMet: err == nil && !v.verifyExhaustively ==> r != nil && setLen(r) >= v.threshold && v.threshold >= 1
 //@   ensures successHasSet: err == nil ==> r != nil
+//@   ensures [C02,C05] met: err == nil && !v.verifyExhaustively ==> metBy(v.principals, v.threshold, gitObjectID, env)
 //@   ensures resultFresh: r != nil ==> fresh(r) && r.contents != nil && fresh(r.contents)
 //@   ensures resultTrusted: r != nil ==> forall s string :: setHas(r, s) ==> trustedID(v, s)
 //@   ensures unmetHasSet: errIs(err, ErrVerifierConditionsUnmet) ==> r != nil && setLen(r) < v.threshold
@@ -204,3 +210,63 @@ package policy
 //@   loop 6:
 //@     invariant visitedOK: forall c string :: visited(c) && c != controllerName ==> rulesOK(policy.globalRules[c], len(policy.globalRules[c]), target, verifiedPrincipalIDs, rslSignatureNeededForThreshold && options.verifyMergeable)
 //@     invariant soFar: rulesOK(globalRules, rangeindex + 1, target, verifiedPrincipalIDs, rslSignatureNeededForThreshold && options.verifyMergeable) && globalRules == policy.globalRules[controllerName]
+
+//@ # ---- C02: a policy state takes effect only via an unbroken, rollback-free chain of trust ----
+//@ # Decoding an envelope is a function of the envelope (JSON decoding assumed deterministic; the decoded object is
+//@ # treated as an immutable value - see internal/tuf contracts).
+//@ spec rootMD(env *sslibdsse.Envelope, migrate bool) tuf.RootMetadata
+//@ spec rootMDOK(env *sslibdsse.Envelope) bool
+//@ spec targetsMD(env *sslibdsse.Envelope, migrate bool) tuf.TargetsMetadata
+//@ spec targetsMDOK(env *sslibdsse.Envelope) bool
+//@ func (*StateMetadata).GetRootMetadata -> (r, err)
+//@   trusted
+//@   pure
+//@   requires s != nil
+//@   ensures (err == nil) == rootMDOK(s.RootEnvelope)
+//@   ensures err == nil ==> notNil(r) && r == rootMD(s.RootEnvelope, migrate)
+//@   # migration changes the schema, not the version number (C13 states the migration getters agree)
+//@   ensures err == nil ==> rmVersion(r) == rmVersion(rootMD(s.RootEnvelope, false))
+//@ # the envelope GetTargetsMetadata decodes for a role name
+//@ define envOf(m *StateMetadata, role string) *sslibdsse.Envelope = ite(role == TargetsRoleName, m.TargetsEnvelope, ite(has(m.DelegationEnvelopes, role), m.DelegationEnvelopes[role], nil))
+//@ func [C02] (*StateMetadata).GetTargetsMetadata -> (r, err)
+//@   requires s != nil
+//@   ensures notFound: envOf(s, roleName) == nil ==> err == ErrMetadataNotFound
+//@   ensures found: err == nil ==> envOf(s, roleName) != nil && notNil(r)
+//@   assumed err == nil ==> r == targetsMD(envOf(s, roleName), migrate) && tmVersion(r) == tmVersion(targetsMD(envOf(s, roleName), false))
+//@   assumed errIs(err, ErrMetadataNotFound) ==> envOf(s, roleName) == nil
+
+//@ define rootOfState(s *State) tuf.RootMetadata = rootMD(s.Metadata.RootEnvelope, false)
+//@ func [C02] (*State).getRootVerifier -> (v, err)
+//@   requires s != nil && s.Metadata != nil
+//@   assigns fresh(SignatureVerifier.*)
+//@   ensures rootVerifier: err == nil ==> v != nil && fresh(v) && v.repository == s.repository && !v.verifyExhaustively && v.principals == rmRootPrincipals(rootOfState(s)) && v.threshold == rmRootThreshold(rootOfState(s)) && noNilPs(v.principals) && rootMDOK(s.Metadata.RootEnvelope)
+//@ func [C02] (*State).getTargetsVerifier -> (v, err)
+//@   requires s != nil && s.Metadata != nil
+//@   assigns fresh(SignatureVerifier.*)
+//@   ensures targetsVerifier: err == nil ==> v != nil && fresh(v) && v.repository == s.repository && !v.verifyExhaustively && v.principals == rmTargetsPrincipals(rootOfState(s)) && v.threshold == rmTargetsThreshold(rootOfState(s)) && noNilPs(v.principals) && rootMDOK(s.Metadata.RootEnvelope)
+
+//@ # rollback-freedom between two metadata sets (current m, new n): versions never decrease, rule files never disappear
+//@ define rootNoRollback(m *StateMetadata, n *StateMetadata) bool = rmVersion(rootMD(n.RootEnvelope, false)) >= rmVersion(rootMD(m.RootEnvelope, false))
+//@ define primaryNoRollback(m *StateMetadata, n *StateMetadata) bool = m.TargetsEnvelope != nil ==> n.TargetsEnvelope != nil && tmVersion(targetsMD(n.TargetsEnvelope, false)) >= tmVersion(targetsMD(m.TargetsEnvelope, false))
+//@ define delegatedNoRollback(m *StateMetadata, n *StateMetadata, name string) bool = has(m.DelegationEnvelopes, name) && name != TargetsRoleName ==> has(n.DelegationEnvelopes, name) && n.DelegationEnvelopes[name] != nil && tmVersion(targetsMD(n.DelegationEnvelopes[name], false)) >= tmVersion(targetsMD(m.DelegationEnvelopes[name], false))
+//@ func [C02] (*StateMetadata).VerifyNewStateMetadata -> (err)
+//@   requires s != nil && newStateMetadata != nil
+//@   ensures rootVersion: err == nil ==> rootNoRollback(s, newStateMetadata)
+//@   ensures primaryRuleFile: err == nil ==> primaryNoRollback(s, newStateMetadata)
+//@   # (the code skips the delegated files when the current state has no primary rule file: State.Verify only
+//@   # checks delegated files of states that have one)
+//@   ensures delegatedRuleFiles: err == nil && s.TargetsEnvelope != nil ==> forall name string :: delegatedNoRollback(s, newStateMetadata, name)
+//@   loop 1:
+//@     invariant soFar: forall k string :: visited(k) ==> delegatedNoRollback(s, newStateMetadata, k)
+//@     invariant primary: s.TargetsEnvelope != nil && rootNoRollback(s, newStateMetadata) && primaryNoRollback(s, newStateMetadata)
+
+//@ func [C02] (*State).VerifyNewState -> (err)
+//@   requires s != nil && s.Metadata != nil && s.repository != nil && newPolicy != nil && newPolicy.Metadata != nil
+//@   requires noNilControllers: (forall k string :: has(s.ControllerMetadata, k) ==> s.ControllerMetadata[k] != nil) && (forall k string :: has(newPolicy.ControllerMetadata, k) ==> newPolicy.ControllerMetadata[k] != nil)
+//@   assigns ghost faults, fresh(SignatureVerifier.*), fresh(set.Set[string].contents), fresh(map map[string]struct{}), fresh(elems gitobject.Option), fresh(elems sslibdsse.Verifier), fresh(elems sigstoreverifieropts.Option)
+//@   ensures rootSignedByCurrentRoot: err == nil ==> metBy(rmRootPrincipals(rootOfState(s)), rmRootThreshold(rootOfState(s)), nil, newPolicy.Metadata.RootEnvelope)
+//@   ensures noRollback: err == nil ==> rootNoRollback(s.Metadata, newPolicy.Metadata) && primaryNoRollback(s.Metadata, newPolicy.Metadata) && (s.Metadata.TargetsEnvelope != nil ==> forall name string :: delegatedNoRollback(s.Metadata, newPolicy.Metadata, name))
+//@   ensures controllersNoRollback: err == nil ==> forall c string :: has(s.ControllerMetadata, c) && has(newPolicy.ControllerMetadata, c) ==> rootNoRollback(s.ControllerMetadata[c], newPolicy.ControllerMetadata[c]) && primaryNoRollback(s.ControllerMetadata[c], newPolicy.ControllerMetadata[c])
+//@   loop 1:
+//@     invariant done: forall c string :: visited(c) && has(newPolicy.ControllerMetadata, c) ==> rootNoRollback(s.ControllerMetadata[c], newPolicy.ControllerMetadata[c]) && primaryNoRollback(s.ControllerMetadata[c], newPolicy.ControllerMetadata[c])
+//@     invariant main: metBy(rmRootPrincipals(rootOfState(s)), rmRootThreshold(rootOfState(s)), nil, newPolicy.Metadata.RootEnvelope) && rootNoRollback(s.Metadata, newPolicy.Metadata) && primaryNoRollback(s.Metadata, newPolicy.Metadata) && (s.Metadata.TargetsEnvelope != nil ==> forall name string :: delegatedNoRollback(s.Metadata, newPolicy.Metadata, name))
